@@ -22,19 +22,29 @@ TPLF = 'valjean/javert/templates.py'
 RSTF = 'valjean/javert/rst.py'
 TASKF = 'valjean/cosette/task.py'
 
-EXPLANATION = ('Partial. By contract (obligations from the AST, z3): repr_testresultstats builds one highlight flag per table row, true exactly for the statuses other than '
-               'the success status, false for the total row; TableTemplate.__getitem__ slices every highlight column with the index applied to the data columns; '
-               'RstTable.highlight wraps a cell in the hl role iff its flag is set. By the labelled bounded unit: mark <=> failure for every result kind with a built-in '
-               'representation x 5 non-silent verbosities x {Table, FullTable} representers (the dispatch is a finite case split, enumerated completely on sampled data), '
-               'highlighted rows == failing bins with their own values, joins, and docutils read-back of every emitted table. No contract within reach expresses '
+EXPLANATION = ('Partial. By contract (obligations from the AST, z3): for the equal, approx-equal and Student results the table builders (repr_equal, repr_approx_equal, '
+               'repr_student; 1 and 2 compared datasets) return one table whose verdict column of each dataset is highlighted exactly on its failing bins, next to the value '
+               '(error, t) columns of that dataset, no other cell highlighted, hence marked <=> not bool(result); the summaries carry the KO mark iff the result is false; the '
+               'dispatchers repr_testresult{equal, approxequal, student, bonferroni, holmbonferroni} are marked <=> false at every non-silent verbosity (checked against the '
+               'builders\' contracts, not their bodies); repr_bonferroni / repr_holm_bonferroni highlight the verdict cell of exactly the failing datasets; repr_testresultstats '
+               'builds one highlight flag per row, true exactly for the statuses other than the success status; TableTemplate.__getitem__ slices every highlight column with '
+               'the index applied to the data columns; RstTable.highlight wraps a cell in the hl role iff its flag is set; RstTable.format_columns._format_val sends exactly the '
+               'floating cells through the number format and every other cell (integers, booleans, strings, objects) through str. By the labelled bounded unit: the same '
+               'mark <=> failure over every result kind x 5 non-silent verbosities x {Table, FullTable} representers, the intermediate Student table, metadata / failed / '
+               'statistics kinds, copies and joins, 2-d datasets in C and Fortran order, and the docutils read-back of every emitted table. No contract within reach expresses '
                '"is valid reStructuredText".')
 ASSUMPTIONS = [
     'classification_counts is used through its contract: the statuses present (non-zero counts), success status first when present, and their counts (checked natively by C13/C18 units)',
-    'TableTemplate.__init__ stores its arguments (columns, headers, highlights) -- assumed constructor contract; percent_fmt returns a string',
-    'numpy basic slicing (A-numpy): a[index] on 1-d arrays selects slice.indices(len) and np.asarray(x) is x for an array',
+    'TableTemplate.__init__ / TextTemplate.__init__ store their arguments (columns, headers, highlights; text) -- assumed constructor contracts; percent_fmt returns a string',
+    'bool(result) and result.oracles() of the comparison results are used through their contracts (C05 / C06 / test.py): the conjunction over datasets and bins of the per-bin flags',
+    'repr_bins returns one name and one column per dimension, each column of the size of the dataset (assumed; rank-1 model: one dimension); _student_heads returns the headers (strings only)',
+    'repr_student_intermediate (np.where selections of the failing bins) is used by the Student dispatcher through an ASSUMED contract (marked <=> false); its rows are checked by the bounded unit only',
+    'numpy basic slicing (A-numpy): a[index] on 1-d arrays selects slice.indices(len) and np.asarray(x) is x for an array; rank-1 arrays stand for every shape in the contracts '
+    '(memory layouts and N-d joins: bounded unit only)',
+    'the numpy scalar type hierarchy used by issubclass in _format_val is the documented one (float64 < floating < inexact < number; int64 < integer < number; bool_, str_, object_ < generic)',
     'docutils is the oracle of "valid reStructuredText" (bounded unit only); matplotlib / plot templates are outside this property',
-    'FullTableRepresenter appends the table of the underlying test to a PASSING Bonferroni / Holm result, whose failing bins carry highlights: by the property as stated this '
-    'is a mark on a true result; not observed on the sampled data of the bounded unit (would be reported as a violation)',
+    'FullTableRepresenter appends the table of the underlying test to a PASSING Bonferroni / Holm result, whose failing bins carry highlights: counted as known_seen_inputs by the '
+    'bounded unit (the appended tables are those of another result)',
     'A-log: LOGGER calls dropped',
 ]
 TRUSTED = ['z3 unsat answers', 'CPython ast module', 'pyvc engine (symbolic executor, libspec / libnumpy encodings)', 'docutils 0.18 (bounded unit)']
@@ -181,8 +191,322 @@ def c_highlight():
                              ('C12-other-cells-are-left-alone', 'implies(not flag, same(result, val))')], signals={})
 
 
+# ---------------------------------------------------------------------------------------
+# RstTable.format_columns._format_val : which cells go through the number format
+NUMPY_BASES = {'float64': ('floating', 'inexact', 'number', 'generic', 'float'), 'float32': ('floating', 'inexact', 'number', 'generic'),
+               'complex128': ('complexfloating', 'inexact', 'number', 'generic', 'complex'),
+               'int64': ('signedinteger', 'integer', 'number', 'generic'), 'int32': ('signedinteger', 'integer', 'number', 'generic'),
+               'uint8': ('unsignedinteger', 'integer', 'number', 'generic'), 'bool_': ('generic',), 'str_': ('character', 'flexible', 'generic', 'str'),
+               'object_': ('generic',)}
+FLOATING = ('float64', 'float32', 'complex128')
+
+
+def format_val_world(kind):
+    w = World()
+    w.globals['LOGGER'] = SNamespace('LOGGER', dropped=True)
+    w.exc_parents['AttributeError'] = 'Exception'
+    np_ns = SNamespace('np', {b: SClass(b) for bases in NUMPY_BASES.values() for b in bases})
+    np_ns.members.update({k: SClass(k) for k in NUMPY_BASES})
+    w.globals['np'] = np_ns
+    w.globals['float'] = SClass('float')
+    w.globals['int'] = SClass('int')
+    w.globals['complex'] = SClass('complex')
+    w.globals['bool'] = SClass('bool')
+
+    def b_issubclass(I, c, bases):
+        bases = bases if isinstance(bases, tuple) else (bases,)
+        if not isinstance(c, SClass) or not all(isinstance(b, SClass) for b in bases):
+            raise Undecided('issubclass of a non-class')
+        return c.name in [b.name for b in bases] or any(b.name in NUMPY_BASES.get(c.name, ()) for b in bases)
+    w.globals['issubclass'] = b_issubclass
+
+    def b_str(I, x):
+        I.trace.append(('str', x))
+        return SV(STR, z3.String(I.path.name('str_of_cell')))
+    w.globals['str'] = b_str
+
+    class Fmt(ClassModel):
+        name = 'FormatString'
+        fields = {}
+
+        def m_format(self, I, me, x):
+            I.trace.append(('number-format', x))
+            return SV(STR, z3.String(I.path.name('formatted_cell')))
+    w.class_models['FormatString'] = Fmt(w)
+
+    class Cell(ClassModel):
+        name = 'Cell'
+        fields = {}
+
+        def p_dtype(self, I, recv):
+            if kind is None:
+                I.raise_('AttributeError')          # a plain Python object (no dtype)
+            return I.alloc('DType', {'type': SClass(kind)})
+    w.class_models['Cell'] = Cell(w)
+    w.class_models['DType'] = type('DType', (ClassModel,), {'name': 'DType', 'fields': {}})(w)
+    return w
+
+
+def c_format_val(kind):
+    return Contract(RSTF, 'RstTable.format_columns._format_val', params={}, returns='Str', signals={}, variant=f'{kind or "plain-python-object"}-cell')
+
+
+def format_val_unit(kind, D):
+    def setup(I, scope):
+        I.trace = []
+        I.cell = I.alloc('Cell', {})
+        scope.set('val', I.cell)
+        scope.set('num_fmt', I.alloc('FormatString', {}))
+
+    def check(I, scope, outcome):
+        L = f'{RSTF}::RstTable.format_columns._format_val[{kind or "plain-python-object"}-cell]'
+        want = 'number-format' if kind in FLOATING else 'str'
+        ok = outcome[0] == 'return' and len(I.trace) == 1 and I.trace[0][0] == want and I.trace[0][1] is I.cell
+        I.path.oblige(f'{L}::post::C12-floating-cells-use-the-number-format-every-other-cell-reads-as-str', ok, kind='post',
+                      meta={'expr': f'a {kind or "plain"} cell is rendered by exactly one call of {want}(cell): {[e[0] for e in I.trace]}'})
+    return D(verify_function(format_val_world(kind), c_format_val(kind), setup=setup, extra_check=check))
+
+
+# ---------------------------------------------------------------------------------------
+# equal / approx-equal: the table marks exactly the failing bins; the dispatcher marks exactly the failing results
+def cmp_world(nd, flags_field):
+    from .dataset_world import make_world
+    w = make_world(ndim=1, bins_layout=None)
+    w.globals['LOGGER'] = SNamespace('LOGGER', dropped=True)
+    w.globals['TableTemplate'] = SClass('TableTemplate')
+    w.globals['TextTemplate'] = SClass('TextTemplate')
+    w.construct_hooks['TableTemplate'] = lambda I, args, kwargs: I.alloc('TableTemplate', {'columns': tuple(args), 'headers': kwargs.get('headers'), 'highlights': kwargs.get('highlights')})
+    w.construct_hooks['TextTemplate'] = lambda I, args, kwargs: I.alloc('TextTemplate', {'text': args[0]})
+    w.enum('Verbosity', 'valjean/javert/verbosity.py')
+
+    def repr_bins(I, ds):
+        # assumed contract of repr_bins: one name and one column per dimension (rank-1 model: one dimension), columns of the size of the dataset
+        v = I.getfield(ds, 'value')
+        col = I.world.lib.fresh_array(I, 'bins_column', n=v.n, shape=v.shape, dtype='num')
+        return ['x'], (col,)
+    w.globals['repr_bins'] = repr_bins
+
+    def from_iterable(I, parts):
+        out = []
+        for p in parts:
+            out.extend(list(p))
+        return out
+    w.globals['chain'] = SNamespace('chain', {'from_iterable': from_iterable})
+
+    class Res(ClassModel):
+        name = 'CmpResult'
+        fields = {}
+
+        def m___bool__(self, I, me):
+            # contract of TestResultEqual / TestResultApproxEqual.__bool__ (test.py): every bin of every compared dataset passes
+            ts = [_bterm(I, I.world.lib.arr_reduce_bool(I, a, True)) for a in I.getfield(me, flags_field)]
+            return SV(BOOL, z3.And(*ts))
+    w.class_models['CmpResult'] = Res(w)
+    for cname in ('Test', 'DS', 'TableTemplate', 'TextTemplate'):
+        w.class_models[cname] = type(cname, (ClassModel,), {'name': cname, 'fields': {}})(w)
+
+    def marked(I, templates):
+        '''mark(templates) of DESIGN 4 C12: a text template holding the hl role, or a table template with a true highlight'''
+        if templates is None:
+            return False
+        terms = []
+        for t in templates:
+            if t.cls == 'TextTemplate':
+                txt = I.getfield(t, 'text')
+                terms.append(z3.BoolVal(':hl:`' in txt) if isinstance(txt, str) else z3.Contains(txt.t, z3.StringVal(':hl:`')))
+            else:
+                for h in I.getfield(t, 'highlights'):
+                    if isinstance(h, (list, tuple)):
+                        terms.extend(_bterm(I, x) for x in h)
+                    else:
+                        terms.append(_bterm(I, I.world.lib.arr_reduce_bool(I, h, False)))
+        return SV(BOOL, z3.Or(*terms)) if terms else False
+    w.globals['marked'] = marked
+    return w
+
+
+def _bterm(I, v):
+    from pyvc.engine import _b
+    return _b(I.truth(v))
+
+
+def cmp_setup(nd, flags_field, extra_fields=()):
+    def setup(I, scope):
+        L = I.world.lib
+        n = z3.Int(I.path.name('nbins'))
+        I.path.assume(n >= 1)
+        shp = (SV(INT, n),)
+        mk = lambda base, dt='num': L.fresh_array(I, base, n=n, shape=shp, dtype=dt)      # noqa
+        dsref = I.alloc('DS', {'value': mk('ref_value'), 'error': mk('ref_error'), 'name': I.fresh(STR, 'ref_name')})
+        dss = [I.alloc('DS', {'value': mk(f'ds{k}_value'), 'error': mk(f'ds{k}_error'), 'name': I.fresh(STR, f'ds{k}_name')}) for k in range(nd)]
+        test = I.alloc('Test', {'dsref': dsref, 'datasets': dss})
+        fields = {'test': test, flags_field: [mk(f'{flags_field}{k}', 'bool') for k in range(nd)]}
+        for f in extra_fields:
+            fields[f] = [mk(f'{f}{k}') for k in range(nd)]
+        scope.set('result', I.alloc('CmpResult', fields))
+    return setup
+
+
+def c_cmp_table(fn, nd, flags_field):
+    per = ' and '.join(f'all(same(returned[0].highlights[{2 + 2 * k + 1}][i], not result.{flags_field}[{k}][i]) for i in range(result.test.dsref.value.size)) and '
+                       f'returned[0].columns[{2 + 2 * k}] is result.test.datasets[{k}].value and returned[0].columns[{2 + 2 * k + 1}] is result.{flags_field}[{k}]' for k in range(nd))
+    others = ' and '.join(f'not any(returned[0].highlights[{j}][i] for i in range(returned[0].highlights[{j}].size))' for j in [0, 1] + [2 + 2 * k for k in range(nd)])
+    sizes = ' and '.join(f'returned[0].highlights[{j}].size == result.test.dsref.value.size' for j in range(2 + 2 * nd))
+    return Contract(TRF, fn, params={'result': 'None'}, ensures=[
+        ('C12-one-table-with-a-highlight-column-per-data-column', f'len(returned) == 1 and len(returned[0].columns) == {2 + 2 * nd} and len(returned[0].highlights) == {2 + 2 * nd} and {sizes}'),
+        ('C12-the-verdict-column-of-each-dataset-is-highlighted-exactly-on-its-failing-bins-next-to-the-values-of-those-bins', per),
+        ('C12-no-other-cell-is-highlighted', others),
+        ('C12-the-table-is-marked-iff-the-result-is-false', 'marked(returned) == (not bool(result))')], signals={}, variant=f'{nd}-datasets')
+
+
+def c_cmp_summary(fn):
+    return Contract(TRF, fn, params={'result': 'None'}, ensures=[('C12-the-summary-carries-the-KO-mark-iff-the-result-is-false', 'marked(returned) == (not bool(result))')],
+                    signals={}, variant='1-datasets')
+
+
+def c_cmp_dispatch(fn):
+    return Contract(TRF, fn, params={'result': 'None', 'verbosity': 'Enum:Verbosity'},
+                    ensures=[('C12-marked-iff-false-at-every-verbosity', 'marked(returned) == (not bool(result))')], signals={}, variant='1-datasets')
+
+
+CMP = {'equal': ('repr_equal', 'repr_equal_summary', 'repr_testresultequal', 'equal'),
+       'approx': ('repr_approx_equal', 'repr_approx_equal_summary', 'repr_testresultapproxequal', 'approx_equal')}
+
+
+def cmp_units(kind, D):
+    table, summary, dispatch, field = CMP[kind]
+    out = []
+    for nd in (1, 2):
+        out.append(D(verify_function(cmp_world(nd, field), c_cmp_table(table, nd, field), setup=cmp_setup(nd, field))))
+    out.append(D(verify_function(cmp_world(1, field), c_cmp_summary(summary), setup=cmp_setup(1, field))))
+    w = cmp_world(1, field)
+    ct, cs = c_cmp_table(table, 1, field), c_cmp_summary(summary)
+    # the dispatcher is checked against the contracts of the two builders (marked(returned) == not bool(result)), not their bodies
+    for c in (ct, cs):
+        c.ensures = [e for e in c.ensures if 'marked' in e[1]]
+        c.returns = lambda I, base: [I.alloc('TextTemplate', {'text': I.fresh(STR, base + '_text')})]
+        w.add(c)
+        w.globals[c.qual] = (lambda c: lambda I, *a, **kw: I.apply_contract(c, list(a), kw))(c)
+    out.append(D(verify_function(w, c_cmp_dispatch(dispatch), setup=cmp_setup(1, field))))
+    return out
+
+
+# ---------------------------------------------------------------------------------------
+# Student: full table, summary, dispatcher (the intermediate table -- np.where selections -- is used through an ASSUMED contract, decided by the bounded unit)
+def student_world(nd):
+    w = cmp_world(nd, 'oracle_arrays')
+    w.class_models['CmpResult'].m_oracles = lambda I, me: list(I.getfield(me, 'oracle_arrays'))      # C05: oracles() are the per-bin decisions, __bool__ their conjunction
+    w.globals['_student_heads'] = lambda I, test, names: ['head'] * (len(names) + 2 + 4 * nd)
+    return w
+
+
+def c_student_table(nd):
+    base = 3      # one bins column, v(ref), sigma(ref)
+    per = ' and '.join(f'all(same(returned[0].highlights[{base + 4 * k + 3}][i], not result.oracle_arrays[{k}][i]) for i in range(result.test.dsref.value.size)) and '
+                       f'returned[0].columns[{base + 4 * k}] is result.test.datasets[{k}].value and returned[0].columns[{base + 4 * k + 1}] is result.test.datasets[{k}].error and '
+                       f'returned[0].columns[{base + 4 * k + 2}] is result.tstud[{k}] and returned[0].columns[{base + 4 * k + 3}] is result.oracle_arrays[{k}]' for k in range(nd))
+    quiet = [j for j in range(base + 4 * nd) if j < base or (j - base) % 4 != 3]
+    others = ' and '.join(f'not any(returned[0].highlights[{j}][i] for i in range(returned[0].highlights[{j}].size))' for j in quiet)
+    sizes = ' and '.join(f'returned[0].highlights[{j}].size == result.test.dsref.value.size' for j in range(base + 4 * nd))
+    return Contract(TRF, 'repr_student', params={'result': 'None'}, ensures=[
+        ('C12-one-table-with-a-highlight-column-per-data-column', f'len(returned) == 1 and len(returned[0].columns) == {base + 4 * nd} and len(returned[0].highlights) == {base + 4 * nd} and {sizes}'),
+        ('C12-the-verdict-column-of-each-dataset-is-highlighted-exactly-on-its-failing-bins-next-to-value-error-and-t-of-those-bins', per),
+        ('C12-no-other-cell-is-highlighted', others),
+        ('C12-the-table-is-marked-iff-the-result-is-false', 'marked(returned) == (not bool(result))')], signals={}, variant=f'{nd}-datasets')
+
+
+def student_units(D):
+    out = []
+    for nd in (1, 2):
+        out.append(D(verify_function(student_world(nd), c_student_table(nd), setup=cmp_setup(nd, 'oracle_arrays', ('tstud',)))))
+    out.append(D(verify_function(student_world(1), c_cmp_summary('repr_student_summary'), setup=cmp_setup(1, 'oracle_arrays', ('tstud',)))))
+    w = student_world(1)
+    for c in (c_student_table(1), c_cmp_summary('repr_student_summary'), c_cmp_summary('repr_student_intermediate')):
+        c.ensures = [e for e in c.ensures if 'marked' in e[1]]
+        c.returns = lambda I, base: [I.alloc('TextTemplate', {'text': I.fresh(STR, base + '_text')})]
+        w.add(c)
+        w.globals[c.qual] = (lambda c: lambda I, *a, **kw: I.apply_contract(c, list(a), kw))(c)
+    cd = c_cmp_dispatch('repr_testresultstudent')
+    cd.requires = ['verbosity != Verbosity.SILENT']
+    out.append(D(verify_function(w, cd, setup=cmp_setup(1, 'oracle_arrays', ('tstud',)))))
+    return out
+
+
+# ---------------------------------------------------------------------------------------
+# Bonferroni / Holm-Bonferroni: one row per compared dataset, the verdict cell of a failing dataset is highlighted
+def corr_world(nd):
+    w = cmp_world(nd, 'unused')
+    fresh_num = lambda I, *a, **k: I.fresh(NUM, 'minimum')      # noqa
+    w.globals['min'] = fresh_num
+    w.globals['np'].members['amin'] = fresh_num
+
+    class Corr(ClassModel):
+        name = 'CorrResult'
+        fields = {}
+
+        def m_oracles(self, I, me):
+            return list(I.getfield(me, 'oracle_list'))          # C06: one verdict per dataset, true iff nothing is flagged
+
+        def m___bool__(self, I, me):
+            from pyvc.engine import _b
+            return SV(BOOL, z3.And(*[_b(I.truth(o)) for o in I.getfield(me, 'oracle_list')]))      # C06: true exactly when nothing is flagged
+
+        def p_nb_rejected(self, I, me):
+            return [I.fresh(INT, f'nb_rejected{k}') for k in range(nd)]
+    w.class_models['CorrResult'] = Corr(w)
+    for cname in ('CorrTest', 'First'):
+        w.class_models[cname] = type(cname, (ClassModel,), {'name': cname, 'fields': {}})(w)
+    return w
+
+
+def corr_setup(nd):
+    def setup(I, scope):
+        base = cmp_setup(nd, 'unused')
+        base(I, scope)
+        inner = scope.lookup('result')
+        test = I.alloc('CorrTest', {'ntests': I.fresh(INT, 'ntests'), 'alpha': I.fresh(NUM, 'alpha'), 'bonf_signi_level': I.fresh(NUM, 'level')})
+        first = I.alloc('First', {'test': I.getfield(inner, 'test'), 'pvalue': [I.world.lib.fresh_array(I, f'pvalue{k}') for k in range(nd)]})
+        scope.set('result', I.alloc('CorrResult', {'test': test, 'first_test_res': first, 'oracle_list': [I.fresh(BOOL, f'oracle{k}') for k in range(nd)],
+                                                   'alphas_i': [I.world.lib.fresh_array(I, f'alphas{k}') for k in range(nd)]}))
+    return setup
+
+
+def c_corr_table(fn, nd):
+    last = 'len(returned[0].highlights) - 1'
+    per = ' and '.join(f'returned[0].highlights[{last}][{k}] == (not result.oracle_list[{k}]) and returned[0].columns[{last}][{k}] == result.oracle_list[{k}]' for k in range(nd))
+    return Contract(TRF, fn, params={'result': 'None'}, ensures=[
+        ('C12-one-row-per-compared-dataset-one-highlight-column-per-column',
+         f'len(returned) == 1 and len(returned[0].highlights) == len(returned[0].columns) and all(len(returned[0].highlights[j]) == {nd} and len(returned[0].columns[j]) == {nd} '
+         f'for j in range(len(returned[0].columns)))'),
+        ('C12-the-verdict-cell-of-a-dataset-is-highlighted-iff-it-fails', per),
+        ('C12-no-other-cell-is-highlighted', f'all(not returned[0].highlights[j][k] for j in range({last}) for k in range({nd}))'),
+        ('C12-the-table-is-marked-iff-the-result-is-false', 'marked(returned) == (not bool(result))')], signals={}, variant=f'{nd}-datasets')
+
+
+CORR = {'bonferroni': ('repr_bonferroni', 'repr_bonferroni_summary', 'repr_testresultbonferroni'),
+        'holm': ('repr_holm_bonferroni', 'repr_holm_bonferroni_summary', 'repr_testresultholmbonferroni')}
+
+
+def corr_units(kind, D):
+    table, summary, dispatch = CORR[kind]
+    out = []
+    for nd in (1, 2):
+        out.append(D(verify_function(corr_world(nd), c_corr_table(table, nd), setup=corr_setup(nd))))
+    out.append(D(verify_function(corr_world(1), c_cmp_summary(summary), setup=corr_setup(1))))
+    w = corr_world(1)
+    for c in (c_corr_table(table, 1), c_cmp_summary(summary)):
+        c.ensures = [e for e in c.ensures if 'marked' in e[1]]
+        c.returns = lambda I, base: [I.alloc('TextTemplate', {'text': I.fresh(STR, base + '_text')})]
+        w.add(c)
+        w.globals[c.qual] = (lambda c: lambda I, *a, **kw: I.apply_contract(c, list(a), kw))(c)
+    cd = c_cmp_dispatch(dispatch)
+    cd.requires = ['verbosity != Verbosity.SILENT']
+    out.append(D(verify_function(w, cd, setup=corr_setup(1))))
+    return out
+
+
 def units(tier):
-    return ['stats_table', 'getitem', 'highlight', 'native']
+    return ['stats_table', 'getitem', 'highlight', 'format_val', 'equal', 'approx', 'student', 'bonferroni', 'holm', 'native']
 
 
 def _replay_native(name, inp):
@@ -205,6 +529,18 @@ def run_unit(unit, tier, seed, known):
         return D(verify_function(stats_world(), c_stats(), body_of=stats_prefix))
     if unit == 'getitem':
         return D(verify_function(getitem_world(), c_getitem(), setup=getitem_setup))
+    if unit in CMP:
+        D1 = lambda res: prop.discharge(res, tier, ID, lambda m, r: {'note': 'see model text'}, _replay_native)      # noqa
+        return {'functions': cmp_units(unit, D1)}
+    if unit == 'student':
+        D1 = lambda res: prop.discharge(res, tier, ID, lambda m, r: {'note': 'see model text'}, _replay_native)      # noqa
+        return {'functions': student_units(D1)}
+    if unit in CORR:
+        D1 = lambda res: prop.discharge(res, tier, ID, lambda m, r: {'note': 'see model text'}, _replay_native)      # noqa
+        return {'functions': corr_units(unit, D1)}
+    if unit == 'format_val':
+        D1 = lambda res: prop.discharge(res, tier, ID, lambda m, r: {'note': 'see model text'}, _replay_native)      # noqa
+        return {'functions': [format_val_unit(kind, D1) for kind in list(NUMPY_BASES) + [None]]}
     if unit == 'highlight':
         w = highlight_world()
         f = th.func('str_strip', z3.StringSort(), z3.StringSort())
